@@ -36,7 +36,7 @@ def check(tier, seed):
     with C.WorkDir('C06') as wd:
         C.audit_sources()
         C.props_obligations(res, 'C06', wd)
-        cases = RC.run_suite(res, 'C06', tier, seed, 400, 15000, n_req=[1, 1, 1, 2, 3], force='good', oracle=oracle, late_every=10)
+        cases = RC.run_suite(res, 'C06', tier, seed, 400, 15000, n_req=[1, 1, 1, 2, 3], force='good', oracle=oracle, late_every=10, history_every=6)
         res.compare(cases)
         res.notes['answered'] = sum(1 for c in cases if 'ret=Ubx' in c.impl)
         res.oblige('correspondence request loop: answer and sends (Tie A)', not res.disagreements)
